@@ -309,7 +309,9 @@ class Check:
         ev = {"property_id": self.pid, "tier": self.tier, "seed": SEED, "level": self.level, "coverage": cov,
               "assumptions": self.assumptions, "wall_s": round(wall, 2), "violations": len(self.violations)}
         os.makedirs(os.path.join(VERIF, "evidence"), exist_ok=True)
-        json.dump(ev, open(os.path.join(VERIF, "evidence", self.pid + ".json"), "w"), indent=1, sort_keys=True)
+        # (a run against another tree - VERIF_REPO, a seeded change under test - leaves the evidence of the repository itself alone)
+        name = self.pid + (".json" if REPO == "/repo" else ".other-tree.json")
+        json.dump(ev, open(os.path.join(VERIF, "evidence", name), "w"), indent=1, sort_keys=True)
         for d in self.drift[:10]:
             log("DRIFT: " + str(d)[:400])
         if self.violations:
